@@ -6,7 +6,7 @@ Streams
            Options.for_module(mod).get_value_for(option)            -> value | EXC:<kind>
   enabled: Options.for_module(mod).is_error_code_enabled(code)      (error-code options only)
   real   : a few cases per run through the unpatched prepare_constructor_kwargs (real Checker)
-  model  : lake env lean --run Driver/C18.lean                       -> Pya.effective, Pya.specEffective, D classes
+  model  : lake env lean --run Driver/C18.lean                       -> Pya.C18.effective, Pya.C18.specEffective, D class
   oracle : the precedence sentence of the property implemented here, on the case structure (no pyanalyze)
 Correspondence: impl == model (parse status incl. error kind, every queried value), enabled == model,
 real == impl, Lean spec == oracle (stream spec).
@@ -19,6 +19,7 @@ from harness.common import lean, pya
 
 PROP = "C18"
 LEAN_PROP = "PyaModel.Props.C18"
+NAMESPACE = "Pya.C18"
 LEAN_TARGETS = ["PyaModel.Spec.ConfigSpec", "PyaModel.Generated.OptionsRegistry"]
 ANCHORS = [
     ("pyanalyze/options.py", "ConfigOption.sort_key"),
@@ -158,13 +159,13 @@ def translate(ctx):
         "/-! Regenerated from the live `ConfigOption.registry` by harness/props/c18.py `translate` — do not edit.",
         "Kind = the option class whose `parse` / `get_value_from_instances` the entry really uses",
         "(`other`: not modelled). `isCode`: the name is an `ErrorCode` member. -/",
-        "namespace Pya",
+        "namespace Pya.C18",
         "",
         "def liveRegistry : Registry := [",
     ]
     lines.append(",\n".join(
         "  ⟨%s, .%s, %s, %s⟩" % (json.dumps(n), k, dv, "true" if c else "false") for n, k, dv, c, _ in reg))
-    lines += ["]", "", "end Pya", ""]
+    lines += ["]", "", "end Pya.C18", ""]
     lean.write_if_changed(os.path.join(lean.LEAN, "PyaModel", "Generated", "OptionsRegistry.lean"), "\n".join(lines))
     ctx.extra["registry_size"] = len(reg)
     # Soft tie for sort_key: a tuple shape other than the modelled one is not an obligation (harmless rewrites
@@ -228,6 +229,7 @@ _MSG = [
     ("overrides section must be a list", "overridesNotList"),
     ("override value must be a dict", "overrideNotDict"),
     ("override section must set 'module' to a string", "overrideModule"),
+    ("disable_all must be a boolean", "disableNotBool"),
 ]
 
 
@@ -844,8 +846,7 @@ def evaluate(ctx, cases, with_model=True):
             ctx.tag("out_of_domain")
         elif first_oracle == "REJECT":
             if status == "ok":
-                sd = head["SD"] if head is not None else "-"
-                cls = sd.split(",")[0] if sd != "-" else None
+                cls = None  # no rejection class is left after 7e56ba6 / df9545b
                 ctx.candidate(case, "an invalid configuration (%s) is accepted instead of rejected with a configuration error"
                               % case.get("malformation", "?"), cls=cls, conforms=conforms_status, stream="impl")
             elif status.startswith("EXC:"):
